@@ -43,7 +43,7 @@ func runGpromise(c *Ctx) {
 	if d := c.declByName("R9", "promise", "Promise", "SetResult"); d != nil {
 		name := core.FuncName(d.Obj)
 		won := fnot(fld("promise.Promise.isDone.Swap(true)"))
-		c.Walk("R9", &core.Config{}, core.Entry{Decl: d}, func(p *core.Path) {
+		c.Walk("R9", &core.Config{Follow: samePkgFollow(d.Pkg.PkgPath)}, core.Entry{Decl: d}, func(p *core.Path) {
 			g := prepare(c, p)
 			wrote := false
 			closeIdx := -1
@@ -93,7 +93,7 @@ func runGpromise(c *Ctx) {
 		a.note("R9", name+"/blocking-select", d.Decl.Pos(), !(nsel == 1 && nloop == 0 && ndef == 0),
 			"one select, no default clause, no loop: the await blocks without polling",
 			sprintf("the await is not a single blocking select (selects=%d, default clauses=%d, loops=%d): it may poll or spin", nsel, ndef, nloop), nil)
-		c.Walk("R9", &core.Config{}, core.Entry{Decl: d}, func(p *core.Path) {
+		c.Walk("R9", &core.Config{Follow: samePkgFollow(d.Pkg.PkgPath)}, core.Entry{Decl: d}, func(p *core.Path) {
 			gotDone := false
 			for _, ev := range p.Events {
 				if ev.Kind == core.KRecv {
@@ -113,7 +113,8 @@ func runGpromise(c *Ctx) {
 	// --- Once
 	if d := c.declByName("R8", "promise", "Once", "Resolve"); d != nil {
 		name := core.FuncName(d.Obj)
-		c.Walk("R8", &core.Config{}, core.Entry{Decl: d}, func(p *core.Path) {
+		var goDecl *core.FuncDecl // the goroutine body when it is a method instead of a literal
+		c.Walk("R8", &core.Config{Follow: samePkgFollow(d.Pkg.PkgPath)}, core.Entry{Decl: d}, func(p *core.Path) {
 			g := prepare(c, p)
 			storeIdx := -1
 			// every cycle passes the ctx.Err() test
@@ -139,7 +140,10 @@ func runGpromise(c *Ctx) {
 				if assignsField(ev, "promise.Once.prom", "") && ev.Rhs != nil && !isNilExpr(ev.Rhs, ev.Frame) {
 					storeIdx = i
 				}
-				if ev.Kind == core.KGo && ev.FunVal.Kind == core.VFuncLit {
+				if ev.Kind == core.KGo && (ev.FunVal.Kind == core.VFuncLit || c.Prog.Decl(ev.Callee) != nil) {
+					if ev.FunVal.Kind != core.VFuncLit {
+						goDecl = c.Prog.Decl(ev.Callee)
+					}
 					a.requireGuard("R8", name+"/single-flight", g, i, false, eq("nil", "promise.Once.prom"), "starting the callback goroutine")
 					a.note("R8", name+"/single-flight/same-section", ev.Pos, !(storeIdx >= 0 && g.sec[storeIdx] == g.sec[i] && g.sec[i] >= 0),
 						"the new promise is stored in the section that found none and spawned the goroutine",
@@ -151,10 +155,36 @@ func runGpromise(c *Ctx) {
 			}
 		})
 		a.expect("R8", name+"/single-flight", 1, "the go statement in Once.Resolve")
-		// the goroutine
+		// the goroutine: the literal(s) started with go, or the method the body was moved into
+		type goEntry struct {
+			e     core.Entry
+			lname string
+		}
+		var ges []goEntry
 		for li, l := range escapingLits(c, d) {
-			lname := sprintf("%s.go#%d", name, li+1)
-			c.Walk("R8", &core.Config{}, core.Entry{Lit: l, Pkg: d.Pkg, Outer: d, Name: lname}, func(p *core.Path) {
+			ges = append(ges, goEntry{core.Entry{Lit: l, Pkg: d.Pkg, Outer: d, Name: sprintf("%s.go#%d", name, li+1)}, sprintf("%s.go#%d", name, li+1)})
+		}
+		if goDecl != nil {
+			ges = append(ges, goEntry{core.Entry{Decl: goDecl}, name + ".go#1"})
+		}
+		for _, ge := range ges {
+			lname := ge.lname
+			// the promise being resolved: the *Promise local of Resolve, or the *Promise parameter of the method
+			promRole := "?prom"
+			isProm := func(t types.Type) bool {
+				pt, ok := t.(*types.Pointer)
+				if !ok {
+					return false
+				}
+				n, ok := pt.Elem().(*types.Named)
+				return ok && n.Obj().Name() == "Promise"
+			}
+			if ge.e.Decl != nil {
+				promRole = paramRole(c, ge.e.Decl, isProm)
+			} else if v := localWhere(d, d.Decl, func(v *types.Var, _ *ast.Ident) bool { return isProm(v.Type()) }); v != nil {
+				promRole = c.Role(v)
+			}
+			c.Walk("R8", &core.Config{Follow: samePkgFollow(d.Pkg.PkgPath)}, ge.e, func(p *core.Path) {
 				g := prepare(c, p)
 				cbIdx := -1
 				var errVar *types.Var
@@ -173,21 +203,10 @@ func runGpromise(c *Ctx) {
 							}
 						}
 					}
-					if ev.Kind == core.KCall && ev.Callee != nil && ev.Callee.Name() == "SetResult" {
+					if (ev.Kind == core.KCall || ev.Kind == core.KEnter) && ev.Callee != nil && ev.Callee.Name() == "SetResult" {
 						completed = true
 					}
 					if assignsField(ev, "promise.Once.prom", "nil") {
-						promRole := "?prom"
-						if v := localWhere(d, d.Decl, func(v *types.Var, _ *ast.Ident) bool {
-							pt, ok := v.Type().(*types.Pointer)
-							if !ok {
-								return false
-							}
-							n, ok := pt.Elem().(*types.Named)
-							return ok && n.Obj().Name() == "Promise"
-						}); v != nil {
-							promRole = c.Role(v)
-						}
 						want := eq("promise.Once.prom", promRole)
 						if errVar != nil {
 							want = fand(want, fnot(eq(c.Role(errVar), "nil")))
@@ -199,8 +218,8 @@ func runGpromise(c *Ctx) {
 						a.note("R8", lname+"/clear-on-failure/locked", ev.Pos, !holdsLock(ev, "promise.Once.mtx"), "o.prom is cleared under mtx", "o.prom is cleared without mtx", p)
 					}
 				}
-				if p.End == core.EndReturn {
-					a.note("R8", lname+"/completes-promise", l.Pos(), !completed, "every path of the goroutine completes the promise", "a path of the goroutine ends without completing the promise: awaiters block forever", p)
+				if p.End == core.EndReturn && ev0Frame(p) {
+					a.note("R8", lname+"/completes-promise", entryPos(ge.e), !completed, "every path of the goroutine completes the promise", "a path of the goroutine ends without completing the promise: awaiters block forever", p)
 				}
 			})
 			a.expect("R8", lname+"/clear-on-failure", 1, "o.prom = nil in the callback goroutine")
@@ -212,7 +231,7 @@ func runGpromise(c *Ctx) {
 		pv := paramVars(d)
 		for li, l := range escapingLits(c, d) {
 			lname := sprintf("%s.func#%d", name, li+1)
-			c.Walk("R8", &core.Config{}, core.Entry{Lit: l, Pkg: d.Pkg, Outer: d, Name: lname}, func(p *core.Path) {
+			c.Walk("R8", &core.Config{Follow: samePkgFollow(d.Pkg.PkgPath)}, core.Entry{Lit: l, Pkg: d.Pkg, Outer: d, Name: lname}, func(p *core.Path) {
 				g := prepare(c, p)
 				closeDeferred := false
 				for i, ev := range p.Events {
@@ -284,7 +303,7 @@ func runGccall(c *Ctx) {
 		}
 		se, oe := c.Role(sharedErr), c.Role(ownErr)
 		want := fand(fnot(eq(oe, "nil")), for_(eq(se, "nil"), eq("context.Canceled", se)))
-		c.Walk("R13a", &core.Config{}, core.Entry{Lit: l, Pkg: d.Pkg, Outer: d, Name: lname}, func(p *core.Path) {
+		c.Walk("R13a", &core.Config{Follow: samePkgFollow(d.Pkg.PkgPath)}, core.Entry{Lit: l, Pkg: d.Pkg, Outer: d, Name: lname}, func(p *core.Path) {
 			g := prepare(c, p)
 			decs := 0
 			wrote := false
@@ -343,7 +362,7 @@ func runGccall(c *Ctx) {
 			return true
 		})
 	}
-	c.Walk("R13a", &core.Config{}, core.Entry{Decl: d}, func(p *core.Path) {
+	c.Walk("R13a", &core.Config{Follow: samePkgFollow(d.Pkg.PkgPath)}, core.Entry{Decl: d}, func(p *core.Path) {
 		g := prepare(c, p)
 		cancelDeferred := false
 		incSince := false
@@ -430,7 +449,7 @@ func runGconc(c *Ctx) {
 			continue
 		}
 		name := core.FuncName(d.Obj)
-		c.Walk("R12", &core.Config{}, core.Entry{Decl: d}, func(p *core.Path) {
+		c.Walk("R12", &core.Config{Follow: samePkgFollow(d.Pkg.PkgPath)}, core.Entry{Decl: d}, func(p *core.Path) {
 			g := prepare(c, p)
 			// per loop iteration: sinks
 			iterStart := -1
@@ -459,10 +478,10 @@ func runGconc(c *Ctx) {
 				if ev.Kind == core.KGo {
 					spawns++
 				}
-				if ev.Kind == core.KCall && ev.Callee != nil && ev.Callee.Name() == "Push" {
+				if (ev.Kind == core.KCall || ev.Kind == core.KEnter) && ev.Callee != nil && ev.Callee.Name() == "Push" {
 					pushes++
 				}
-				if ev.Kind == core.KCall && ev.Callee != nil && ev.Callee.Name() == "PushFront" {
+				if (ev.Kind == core.KCall || ev.Kind == core.KEnter) && ev.Callee != nil && ev.Callee.Name() == "PushFront" {
 					a.note("R13b", name+"/fifo-wiring", ev.Pos, true, "", "a producer uses PushFront: jobs no longer run in enqueue order", p)
 				}
 			}
@@ -474,12 +493,12 @@ func runGconc(c *Ctx) {
 	}
 	if d := c.declByName("R12", "conc", "ConcurrentQueue", "executeJob"); d != nil {
 		name := core.FuncName(d.Obj)
-		c.Walk("R12", &core.Config{}, core.Entry{Decl: d}, func(p *core.Path) {
+		c.Walk("R12", &core.Config{Follow: samePkgFollow(d.Pkg.PkgPath)}, core.Entry{Decl: d}, func(p *core.Path) {
 			g := prepare(c, p)
 			popIdx := -1
 			var okVar *types.Var
 			for i, ev := range p.Events {
-				if ev.Kind == core.KCall && ev.Callee != nil && ev.Callee.Name() == "Pop" {
+				if (ev.Kind == core.KCall || ev.Kind == core.KEnter) && ev.Callee != nil && ev.Callee.Name() == "Pop" {
 					popIdx = i
 				}
 				if ev.Kind == core.KAssign && ev.RhsIdx == 1 && popIdx >= 0 && ev.Rhs != nil && unparen(ev.Rhs) == ast.Expr(p.Events[popIdx].Call) {
@@ -540,10 +559,10 @@ func runGccontainer(c *Ctx) {
 			continue
 		}
 		name := core.FuncName(d.Obj)
-		c.Walk("R12", &core.Config{}, core.Entry{Decl: d}, func(p *core.Path) {
+		c.Walk("R12", &core.Config{Follow: samePkgFollow(d.Pkg.PkgPath)}, core.Entry{Decl: d}, func(p *core.Path) {
 			delegates := false
 			for _, ev := range p.Events {
-				if ev.Kind == core.KCall && ev.Callee != nil && ev.Callee.Name() == "WaitValueWithValidator" {
+				if (ev.Kind == core.KCall || ev.Kind == core.KEnter) && ev.Callee != nil && ev.Callee.Name() == "WaitValueWithValidator" {
 					delegates = true
 				}
 			}
@@ -553,3 +572,5 @@ func runGccontainer(c *Ctx) {
 		})
 	}
 }
+
+func ev0Frame(p *core.Path) bool { return len(p.Events) > 0 }
